@@ -342,7 +342,10 @@ def rule_b4(ctx, scope: Set[str], rule_id: str = "C06-B4", class_level: bool = T
     MUT = {"append", "extend", "update", "add", "insert", "pop", "remove", "clear", "setdefault", "__setitem__"}
     from ..shared import SharedFlow
 
-    sflow = SharedFlow(ctx, scope, long_lived=[i.cls for i in long_lived_instances(ctx)])
+    ll = [i.cls for i in long_lived_instances(ctx)]
+    # the constructors of the long-lived stage objects are where their containers are built: always part of the flow
+    flow_scope = set(scope) | {c.qualname + ".__init__" for c in ll if c.qualname + ".__init__" in prog.functions}
+    sflow = SharedFlow(ctx, flow_scope, long_lived=ll)
     ctx.note("C06-B4: shared containers followed through parameters %s and attributes %s" % ({k.split(".")[-1]: sorted(v) for k, v in sorted(sflow.shared_params.items())}, {k.split(".")[-1]: sorted(v) for k, v in sorted(sflow.shared_attrs.items())}))
     for q in sorted(scope):
         f = prog.functions.get(q)
@@ -764,6 +767,8 @@ def check(ctx) -> None:
     rule_b2(ctx, pl)
     rule_b3(ctx, pl)
     rule_b4(ctx, reach)
+    rule_b11(ctx, reach)
+    rule_b12(ctx, reach)
     rule_b5(ctx, pl)
     rule_b6(ctx, reach)
     rule_b7(ctx, ctx.res.reachable(["synrbl.balancing.Balancer.rebalance"], ctx.graph))
@@ -864,3 +869,99 @@ def rule_b10(ctx, rule_id: str = "C06-B10") -> None:
                 ctx.finding(rule_id, "%s:chunk-appended-under-first-chunk-layout" % q.split("synrbl.", 1)[-1], f.loc(c), "%s appends result chunks to the output under a column layout taken from chunk data (%s): result rows only carry the keys that were set for them, so columns missing from the first chunk are dropped from every later row" % (f.name, unparse(layout) if layout is not None else "none"))
     if n == 0:
         ctx.note("%s: the command line writes the output in one piece on this tree" % rule_id)
+
+
+def rule_b11(ctx, scope, rule_id: str = "C06-B11") -> None:
+    """The order of a set of strings depends on the interpreter's hash seed, and every worker process has its own.
+    Picking *one* element out of such a set (`s.pop()`, `next(iter(s))`, `list(s)[0]`) makes the result of a reaction
+    depend on which process handled it and on the run."""
+    ctx.rule(rule_id, "no element is picked out of a set by its iteration order on the pipeline path", 0)
+    prog = ctx.prog
+
+    def is_set_expr(f, e, depth=0) -> bool:
+        if depth > 3:
+            return False
+        if isinstance(e, (ast.Set, ast.SetComp)):
+            return True
+        if isinstance(e, ast.Call) and isinstance(e.func, ast.Name) and e.func.id in ("set", "frozenset"):
+            return True
+        if isinstance(e, ast.Call) and isinstance(e.func, ast.Attribute) and e.func.attr in ("intersection", "union", "difference", "symmetric_difference"):
+            return True
+        if isinstance(e, ast.BinOp) and isinstance(e.op, (ast.BitAnd, ast.BitOr, ast.Sub, ast.BitXor)):
+            return any(is_set_expr(f, x, depth + 1) or (isinstance(x, ast.Call) and isinstance(x.func, ast.Attribute) and x.func.attr in ("keys", "items")) for x in (e.left, e.right))
+        if isinstance(e, ast.Name):
+            defs = assignments_to(f, e.id)
+            return bool(defs) and all(i is None and is_set_expr(f, v, depth + 1) for _s, v, i in defs)
+        return False
+
+    n = 0
+    for q in sorted(scope):
+        f = prog.functions.get(q)
+        if f is None or not q.startswith("synrbl."):
+            continue
+        for c in [x for x in own_nodes(f.node) if isinstance(x, (ast.Call, ast.Subscript))]:
+            picked = None
+            if isinstance(c, ast.Call) and isinstance(c.func, ast.Attribute) and c.func.attr == "pop" and not c.args and is_set_expr(f, c.func.value):
+                picked = c.func.value
+            elif isinstance(c, ast.Call) and isinstance(c.func, ast.Name) and c.func.id == "next" and c.args and isinstance(c.args[0], ast.Call) and getattr(c.args[0].func, "id", "") == "iter" and c.args[0].args and is_set_expr(f, c.args[0].args[0]):
+                picked = c.args[0].args[0]
+            elif isinstance(c, ast.Subscript) and isinstance(c.slice, ast.Constant) and isinstance(c.slice.value, int) and isinstance(c.value, ast.Call) and getattr(c.value.func, "id", "") in ("list", "tuple") and c.value.args and is_set_expr(f, c.value.args[0]):
+                picked = c.value.args[0]
+            if picked is None:
+                continue
+            n += 1
+            ctx.instance(rule_id, "%s: %s" % (q.split("synrbl.", 1)[-1], unparse(c)[:60]), f.loc(c), ok=False)
+            ctx.finding(rule_id, "%s:element-picked-from-set" % q.split("synrbl.", 1)[-1], f.loc(c), "%s picks one element of the set %s by iteration order: for strings that order depends on the hash seed of the interpreter, so two worker processes (or two runs) choose differently" % (f.name, unparse(picked)[:50]))
+    if n == 0:
+        ctx.instance(rule_id, "no pick by iteration order out of a set in %d function(s)" % len(scope), "", ok=True)
+
+
+def rule_b12(ctx, scope, rule_id: str = "C06-B12") -> None:
+    """`min()` / `max()` of an empty selection raises.  Where the selection depends on the rows of the batch (a boolean
+    mask `a[a >= t]`, a filtered comprehension) and nothing tests that it is non-empty, one batch composition makes the
+    stage raise; the pipeline's handler then drops every row of the batch - also those of reactions that were fine."""
+    ctx.rule(rule_id, "no min()/max() over a data-dependent selection that can be empty on the pipeline path", 0)
+    prog = ctx.prog
+    n = 0
+    for q in sorted(scope):
+        f = prog.functions.get(q)
+        if f is None or not q.startswith("synrbl."):
+            continue
+        cfg = None
+        for c in [x for x in own_nodes(f.node) if isinstance(x, ast.Call)]:
+            sel = None
+            if isinstance(c.func, ast.Attribute) and c.func.attr in ("min", "max", "argmin", "argmax") and not c.args:
+                sel = c.func.value
+            elif isinstance(c.func, ast.Name) and c.func.id in ("min", "max") and len(c.args) == 1 and not any(k.arg == "default" for k in c.keywords):
+                sel = c.args[0]
+            if sel is None:
+                continue
+            src = sel
+            if isinstance(src, ast.Name):
+                d_ = assignments_to(f, src.id)
+                if len(d_) == 1 and d_[0][2] is None:
+                    src = d_[0][1]
+            masked = isinstance(src, ast.Subscript) and isinstance(src.slice, (ast.Compare, ast.BoolOp, ast.UnaryOp))
+            filtered = isinstance(src, (ast.ListComp, ast.GeneratorExp, ast.SetComp)) and any(g.ifs for g in src.generators)
+            filtered = False  # generator filters over table entries (rule compositions) are decided by the solver rules
+            if not (masked or filtered):
+                continue
+            n += 1
+            cfg = cfg or CFG(f.node)
+            nid = cfg.node_of(c)
+            name = unparse(sel)
+            guarded = False
+            for cond, pol in cfg.guards(nid) if nid is not None else []:
+                t = unparse(cond)
+                if name in t and ("len(" in t or ".size" in t or ".any()" in t or t == name):
+                    guarded = True
+            cur = getattr(c, "_parent", None)
+            while cur is not None and cur is not f.node:
+                if isinstance(cur, ast.Try) and any(any(y is c for y in ast.walk(b)) for b in cur.body):
+                    guarded = True
+                cur = getattr(cur, "_parent", None)
+            ctx.instance(rule_id, "%s: %s over the selection %s (non-emptiness established: %s)" % (q.split("synrbl.", 1)[-1], unparse(c)[:40], unparse(src)[:40], guarded), f.loc(c), ok=guarded)
+            if not guarded:
+                ctx.finding(rule_id, "%s:reduction-of-empty-selection" % q.split("synrbl.", 1)[-1], f.loc(c), "%s takes %s of %s, which is empty for some batches (no row passes the test): the exception leaves the stage, and the pipeline's handler drops every row of that batch" % (f.name, unparse(c.func)[-10:], unparse(src)[:50]))
+    if n == 0:
+        ctx.instance(rule_id, "no min()/max() over a masked or filtered selection in %d function(s)" % len(scope), "", ok=True)
